@@ -16,3 +16,27 @@ def register(add, NOTE):
         "per-pulse sums and every load class tied by correspondence at two frequencies on the same object; circuit/metamorphic oracle.",
         "Rocq proof + extracted formulas + correspondence", "DESIGN.md §6 C08",
         note=NOTE + " scipy.special.jv is trusted for the Bessel ratio passed to the model; the sigma -> infinity skin-effect limit is measured by the oracle, not proved.")
+
+    add("C10",
+        "Theorems over the de-vectorised far-field model: per-pulse contribution = current moments of its half-segments at the pulse point "
+        "(free space) plus mirror-image elements (ideal ground); E_theta/E_phi = -j g0 S.theta_hat / S.phi_hat with the extracted g0; "
+        "per-polarisation gain = 0.016678 |E|^2 r^2 / P_req for the V/m values, total = sum, |0.016678 - 1/59.96| <= 3e-7 (interval); "
+        "dB conversion and -999 floor; V/m scaling with sqrt(P_req) and 1/r; exact 360-degree periodicity; zenith total gain independent of "
+        "azimuth; linearity in the currents. The model is tied to compute_far_field by a 2e-9 correspondence (incl. real ground); the 1e-4 "
+        "and 2 % clauses are measured on the real code by an independent radiation sum.",
+        "Rocq proof over hand model + extracted constants + vm_compute correspondence", "DESIGN.md §6 C10")
+    add("C11",
+        "Theorems on the reflected far field: splitting a medium into adjacent pieces with equal constants/height (no radial screen) and "
+        "appending a medium beyond every reflection point leave E_theta/E_phi unchanged for all antennas, currents and directions; medium "
+        "lookup = first boundary not exceeded; the solve layer sees the ground only through booleans. 'Currents identical to ideal ground' "
+        "is decided on the real code (bit-identical matrix) by the oracle; the sigma->infinity limit is measured on a ladder.",
+        "Rocq proof over hand model (Fresnel branch) + correspondence + metamorphic oracle", "DESIGN.md §6 C11",
+        note=NOTE + " PARTIAL: the conductivity limit and the independence of the matrix fill from media constants are measured, not proved (no Coq model of the matrix fill yet).")
+    add("C01",
+        "Theorem: for every unloaded matrix Z0, load set and source set (distinct pulses), a solution of the loaded system satisfies "
+        "sum w P_src = sum w P_load - (m/2) Im(I^H Z0 I) exactly (weights 2 on grounded pulses), with rhs/load/power formulas extracted "
+        "from the source; gain normalisation 0.016678/P |E|^2 and constants (interval). PARTIAL: that the quadratic form equals the "
+        "sphere integral of the reported gain within 1.5 % is a discretisation-accuracy claim of the method of moments; it is measured "
+        "by sphere quadrature of the real gain table inside the property's thin-wire domain.",
+        "Rocq proof (energy identity) + extracted formulas + correspondence; quadrature oracle for the numerical clause", "DESIGN.md §6 C01",
+        note=NOTE + " PARTIAL as stated in the level text.")
